@@ -270,6 +270,10 @@ func TestC32(t *testing.T) {
 			default:
 				a = w - 1 - uint64(uniformInt(t, 64, "abefore"))
 			}
+			if uniformInt(t, 3, "gotoFirst") == 0 {
+				// put the cursor on an arbitrary row (data or ellipsis) first
+				uiExec(ui, fmt.Sprintf("goto %d", uniformInt(t, len(render())+1, "gotoRow")))
+			}
 			before := cursorRow(render())
 			_, out, crash := uiExec(ui, fmt.Sprintf("address 0x%x", a))
 			if crash != "" {
